@@ -247,6 +247,19 @@ def shard(shard, nshards, tier, seed, scratch):
     total = 26000 if tier == 'quick' else 240000
     stats = Stats()
     failures = run_hypothesis(strategy(), lambda c: check_case(c, stats, scratch), max(1, total // nshards), seed, shrink_budget=300 if tier == 'quick' else 2000)
+    if shard == 1 and not failures:
+        from .. import largecases
+        for case in largecases.large_cases('wide-header'):
+            try:
+                check_case(case, None, scratch)
+                stats.bump('wide-header-case')
+                stats.evaluations += 1
+            except Violation as v:
+                d = dict(v.detail or {})
+                for k in ('A', 'B', 'a_names', 'b_names'):
+                    d.pop(k, None)
+                failures.append({'clause': 'wide-' + v.clause, 'detail': d, 'case': {'kind': 'large', 'which': 'wide-header'}})
+                break
     return {'stats': stats.export(), 'failures': failures}
 
 
@@ -254,6 +267,11 @@ def replay(case, clause=None):
     import tempfile, shutil
     d = tempfile.mkdtemp(prefix='vf_c07_')
     try:
+        if isinstance(case, dict) and case.get('kind') == 'large':
+            from .. import largecases
+            for c in largecases.large_cases(case['which']):
+                check_case(c, None, d)
+            return
         check_case(case, None, d)
     finally:
         shutil.rmtree(d, ignore_errors=True)
